@@ -1,7 +1,7 @@
 (* Proofs/PrivacyProofs.v -- C13: precedence, default rule, cache transparency, rule parsing. *)
 From Coq Require Import NArith List Bool Lia Arith.
 From PydoctorVerif Require Import Base.Sexp Spec.ReFrag Spec.Glob Spec.PrivacySpec Model.QnMatch Model.Privacy
-  Proofs.QnMatchProofs.
+  Proofs.QnMatchProofs Proofs.ReFragProofs.
 Import ListNotations.
 Local Open Scope N_scope.
 
@@ -289,7 +289,7 @@ Theorem parse_rule : forall v p m,
   exists a b, v = a ++ c_colon :: b /\ ~ In c_colon a /\ ~ In c_colon b /\
               level_of_name (upper (strip a)) p /\ m = strip b.
 Proof.
-  intros v p m. unfold parse_privacy_tuple. split.
+  intros v p m. unfold parse_privacy_tuple, parse_privacy_tuple_result. split.
   - intros H. destruct (colon_decompose v) as [Hn|(a & rest & -> & Ha)].
     + rewrite split_colon_nocolon in H by assumption. discriminate.
     + rewrite split_colon_first in H by assumption. cbn [rev app] in H.
@@ -303,4 +303,290 @@ Proof.
   - intros (a & b & -> & Ha & Hb & Hl & ->).
     rewrite split_colon_first by assumption. rewrite split_colon_nocolon by assumption. cbn [rev app].
     apply privacy_by_name_spec in Hl. now rewrite Hl.
+Qed.
+
+(* the error paths: which error(...) call is reached *)
+Lemma split_one_colon : forall a b, ~ In c_colon a -> ~ In c_colon b -> split_colon (a ++ c_colon :: b) [] = [a; b].
+Proof. intros a b Ha Hb. rewrite split_colon_first by assumption. now rewrite split_colon_nocolon by assumption. Qed.
+
+Definition one_colon (v a b : text) : Prop := v = a ++ c_colon :: b /\ ~ In c_colon a /\ ~ In c_colon b.
+
+Theorem parse_result_spec : forall v,
+  match parse_privacy_tuple_result v with
+  | ParsedRule (p, m) => exists a b, one_colon v a b /\ level_of_name (upper (strip a)) p /\ m = strip b
+  | UnknownLevel a => exists b, one_colon v a b /\ forall p, ~ level_of_name (upper (strip a)) p
+  | Malformatted => forall a b, ~ one_colon v a b
+  end.
+Proof.
+  intros v. unfold parse_privacy_tuple_result, one_colon.
+  destruct (colon_decompose v) as [Hn|(a & rest & -> & Ha)].
+  - rewrite split_colon_nocolon by assumption. cbn [rev app].
+    intros a b (-> & _ & _). apply Hn. apply in_or_app. right. now left.
+  - rewrite split_colon_first by assumption. cbn [rev app].
+    destruct (colon_decompose rest) as [Hn|(b & rest2 & -> & Hb)].
+    + rewrite split_colon_nocolon by assumption. cbn [rev app].
+      destruct (privacy_by_name (upper (strip a))) as [q|] eqn:Ep.
+      * exists a, rest. repeat split; try assumption. now apply privacy_by_name_spec.
+      * exists rest. repeat split; try assumption. intros p Hp. apply privacy_by_name_spec in Hp. congruence.
+    + rewrite split_colon_first by assumption. cbn [rev app].
+      pose proof (split_colon_nonempty rest2 []) as Hne.
+      destruct (split_colon rest2 []) as [|x l] eqn:Es; [congruence|].
+      intros a' b' (E & Ha' & Hb').
+      assert (S1 : split_colon (a ++ c_colon :: b ++ c_colon :: rest2) [] = [a'; b']) by (rewrite E; now apply split_one_colon).
+      rewrite split_colon_first in S1 by assumption. rewrite split_colon_first in S1 by assumption.
+      cbn [rev app] in S1. rewrite Es in S1. discriminate.
+Qed.
+
+(* ------------------------------------------------------------------ precedence, total (no guard on the patterns) *)
+Definition decisive (full : text) (m : text) : bool := negb (wf_pattern m) || matches m full.
+
+Definition verdict_outcome (v : verdict) : outcome priv :=
+  match v with Level p => Ok p | Aborts => Err BadRange end.
+
+Lemma find_pattern_last_total : forall rules full,
+  find_pattern (rev rules) full =
+  match last_entry (decisive full) rules with
+  | Some (p, m) => if wf_pattern m then Ok (Some p) else Err BadRange
+  | None => Ok None
+  end.
+Proof.
+  induction rules as [|[p m] r IH]; intros full; [reflexivity|].
+  cbn [rev last_entry]. rewrite find_pattern_app, (IH full).
+  destruct (last_entry (decisive full) r) as [[q m']|].
+  - destruct (wf_pattern m'); reflexivity.
+  - cbn [bind find_pattern]. rewrite (qnmatch_characterised m full). unfold decisive.
+    destruct (wf_pattern m) eqn:Ew; cbn [negb orb bind].
+    + destruct (matches m full); cbn; rewrite ?Ew; reflexivity.
+    + cbn. rewrite ?Ew. reflexivity.
+Qed.
+
+Theorem precedence_total : forall rules o,
+  compute_privacy rules o =
+  verdict_outcome (documented_verdict (text_eqb (o_full o)) wf_pattern (fun m => matches m (o_full o)) rules
+                                      (default_privacy (o_name o))).
+Proof.
+  intros rules o. unfold compute_privacy, documented_verdict.
+  rewrite find_exact_last. destruct (last_rule (text_eqb (o_full o)) rules); [reflexivity|].
+  rewrite find_pattern_last_total. fold (decisive (o_full o)).
+  destruct (last_entry (decisive (o_full o)) rules) as [[p m]|]; [|reflexivity].
+  destruct (wf_pattern m); reflexivity.
+Qed.
+
+(* what "the last entry satisfying test" means, without recursion *)
+Theorem last_entry_spec : forall test rules p m,
+  last_entry test rules = Some (p, m) <->
+  exists l1 l2, rules = l1 ++ (p, m) :: l2 /\ test m = true /\ forall r, In r l2 -> test (snd r) = false.
+Proof.
+  intros test. induction rules as [|[q m0] r IH]; intros p m.
+  - cbn. split; [discriminate|]. intros (l1 & l2 & H & _). destruct l1; discriminate.
+  - cbn [last_entry]. destruct (last_entry test r) as [[q' m']|] eqn:E.
+    + split.
+      * intros H. injection H as -> ->. destruct (proj1 (IH p m) eq_refl) as (l1 & l2 & -> & Ht & Hl).
+        exists ((q, m0) :: l1), l2. repeat split; assumption.
+      * intros (l1 & l2 & H & Ht & Hl). destruct l1 as [|x l1].
+        -- injection H as -> -> ->.
+           destruct (proj1 (IH q' m') eq_refl) as (k1 & k2 & -> & Ht2 & _).
+           assert (Hf : test m' = false) by (apply (Hl (q', m')); apply in_or_app; right; now left).
+           congruence.
+        -- injection H as Hx Hr. subst x r. apply IH. now exists l1, l2.
+    + assert (Hall : forall x, In x r -> test (snd x) = false).
+      { clear IH. induction r as [|[a b] r IHr]; intros x Hin; [destruct Hin|].
+        cbn [last_entry] in E. destruct (last_entry test r) eqn:E2; [discriminate|].
+        destruct (test b) eqn:Eb; [discriminate|]. destruct Hin as [<-|Hin]; [exact Eb|now apply IHr]. }
+      destruct (test m0) eqn:Em.
+      * split.
+        -- intros H. injection H as -> ->. exists [], r. repeat split; assumption.
+        -- intros (l1 & l2 & H & Ht & Hl). destruct l1 as [|x l1].
+           ++ injection H as -> -> ->. reflexivity.
+           ++ injection H as Hx Hr. subst x r.
+              assert (Hf : test m = false) by (apply (Hall (p, m)); apply in_or_app; right; now left). congruence.
+      * split; [discriminate|]. intros (l1 & l2 & H & Ht & Hl). destruct l1 as [|x l1].
+        -- injection H as -> -> ->. congruence.
+        -- injection H as Hx Hr. subst x r.
+           assert (Hf : test m = false) by (apply (Hall (p, m)); apply in_or_app; right; now left). congruence.
+Qed.
+
+(* privacyClass raises exactly when no exact rule decides and the newest deciding pattern rule is meaningless *)
+Theorem raises_iff : forall rules o,
+  (exists e, compute_privacy rules o = Err e) <->
+  last_rule (text_eqb (o_full o)) rules = None /\
+  exists l1 p m l2, rules = l1 ++ (p, m) :: l2 /\ wf_pattern m = false /\
+                    forall r, In r l2 -> wf_pattern (snd r) = true /\ matches (snd r) (o_full o) = false.
+Proof.
+  intros rules o. rewrite precedence_total. unfold documented_verdict.
+  destruct (last_rule (text_eqb (o_full o)) rules) as [q|].
+  - split; [intros [e H]; discriminate|intros [H _]; discriminate].
+  - fold (decisive (o_full o)).
+    destruct (last_entry (decisive (o_full o)) rules) as [[p m]|] eqn:E.
+    + apply last_entry_spec in E. destruct E as (l1 & l2 & -> & Ht & Hl).
+      assert (Hl' : forall r, In r l2 -> wf_pattern (snd r) = true /\ matches (snd r) (o_full o) = false).
+      { intros r Hr. specialize (Hl r Hr). unfold decisive in Hl. apply orb_false_elim in Hl.
+        destruct Hl as [A B]. split; [now apply negb_false_iff in A|exact B]. }
+      destruct (wf_pattern m) eqn:Ew; cbn [verdict_outcome].
+      * split; [intros [e H]; discriminate|]. intros [_ (k1 & p' & m' & k2 & Heq & Hbad & Hk)]. exfalso.
+        (* the newest deciding rule is unique *)
+        assert (Hd : last_entry (decisive (o_full o)) (k1 ++ (p', m') :: k2) = Some (p', m')).
+        { apply last_entry_spec. exists k1, k2. repeat split.
+          - unfold decisive. now rewrite Hbad.
+          - intros r Hr. destruct (Hk r Hr) as [A B]. unfold decisive. now rewrite A, B. }
+        assert (Hd2 : last_entry (decisive (o_full o)) (l1 ++ (p, m) :: l2) = Some (p, m)).
+        { apply last_entry_spec. exists l1, l2. repeat split; assumption. }
+        rewrite Heq in Hd2. rewrite Hd in Hd2. injection Hd2 as -> ->. congruence.
+      * split; [|intros _; now exists BadRange]. intros _. split; [reflexivity|].
+        exists l1, p, m, l2. repeat split; try assumption; now apply Hl'.
+    + cbn [verdict_outcome]. split; [intros [e H]; discriminate|].
+      intros [_ (k1 & p' & m' & k2 & Heq & Hbad & Hk)]. exfalso.
+      assert (Hd : last_entry (decisive (o_full o)) (k1 ++ (p', m') :: k2) = Some (p', m')).
+      { apply last_entry_spec. exists k1, k2. repeat split.
+        - unfold decisive. now rewrite Hbad.
+        - intros r Hr. destruct (Hk r Hr) as [A B]. unfold decisive. now rewrite A, B. }
+      rewrite <- Heq in Hd. congruence.
+Qed.
+
+(* ------------------------------------------------------------------ the pattern theorem, stated on relations only *)
+Theorem compile_pattern_wf : forall p, wf_pattern p = true -> compile_pattern p = Ok (map tok_item (lex p)).
+Proof.
+  intros p H. unfold compile_pattern. rewrite translate_render. cbn [bind].
+  rewrite read_re_translated_gen by apply lex_fuel_valid. unfold wf_pattern in H. now rewrite H.
+Qed.
+
+Theorem meaning_declarative : forall p, wf_pattern p = true ->
+  exists re, compile_pattern p = Ok re /\
+             forall n, (qnmatch n p = Ok true <-> matches_re re n) /\
+                       (qnmatch n p = Ok false <-> ~ matches_re re n) /\
+                       (matches_re re n <-> Matches (lex p) n).
+Proof.
+  intros p H. exists (map tok_item (lex p)). split; [now apply compile_pattern_wf|].
+  intros n. unfold qnmatch. rewrite (compile_pattern_wf p H). cbn [match_re bind].
+  pose proof (match_items_spec (map tok_item (lex p)) n) as S.
+  pose proof (gmatch_Matches (lex p) n) as G. rewrite <- match_items_gmatch in G.
+  destruct (match_items (map tok_item (lex p)) n).
+  - split; [tauto|]. split; [|tauto]. split; [discriminate|]. intros A. exfalso. apply A. now apply S.
+  - split; [|split; [|tauto]].
+    + split; [discriminate|]. intros A. apply S in A. discriminate.
+    + split; [|reflexivity]. intros _ B. apply S in B. discriminate.
+Qed.
+
+(* ------------------------------------------------------------------ isPrivate / isVisible *)
+Lemma priv_eqb_eq : forall a b, priv_eqb a b = true <-> a = b.
+Proof. intros [] []; cbn; split; intros H; try reflexivity; try discriminate. Qed.
+
+Definition private_uncached (opts : list rule) (o : obj) : outcome bool :=
+  bind (uncached opts o) (fun p => Ok (negb (priv_eqb p PUBLIC))).
+
+Fixpoint visible_uncached (opts : list rule) (o : obj) (ps : list obj) : outcome bool :=
+  match uncached opts o with
+  | Err e => Err e
+  | Ok p =>
+    if priv_eqb p HIDDEN then Ok false
+    else match ps with
+         | [] => Ok true
+         | q :: r => visible_uncached opts q r
+         end
+  end.
+
+Definition answer_uncached (opts : list rule) (q : query) : answer :=
+  match q with
+  | QPrivacy o => ALevel (uncached opts o)
+  | QVisible o ps => ABool (visible_uncached opts o ps)
+  | QPrivate o => ABool (private_uncached opts o)
+  end.
+
+Definition query_objs (q : query) : list obj :=
+  match q with
+  | QPrivacy o | QPrivate o => [o]
+  | QVisible o ps => o :: ps
+  end.
+
+Lemma is_visible_step : forall opts univ ps o c,
+  same_key_same_object univ -> cache_sound opts univ c -> (forall x, In x (o :: ps) -> In x univ) ->
+  fst (is_visible opts c o ps) = visible_uncached opts o ps /\ cache_sound opts univ (snd (is_visible opts c o ps)).
+Proof.
+  intros opts univ. induction ps as [|q r IH]; intros o c Hk Hc Hin.
+  - cbn [is_visible visible_uncached].
+    destruct (doc_privacy_step opts univ c o Hk Hc (Hin o (or_introl eq_refl))) as [H1 H2].
+    destruct (doc_privacyClass opts c o) as [x c'] eqn:E. cbn [fst snd] in *. rewrite <- H1.
+    destruct x as [p|e]; [|split; [reflexivity|assumption]].
+    destruct (priv_eqb p HIDDEN); split; (reflexivity || assumption).
+  - cbn [is_visible visible_uncached].
+    destruct (doc_privacy_step opts univ c o Hk Hc (Hin o (or_introl eq_refl))) as [H1 H2].
+    destruct (doc_privacyClass opts c o) as [x c'] eqn:E. cbn [fst snd] in *. rewrite <- H1.
+    destruct x as [p|e]; [|split; [reflexivity|assumption]].
+    destruct (priv_eqb p HIDDEN); [split; [reflexivity|assumption]|].
+    apply IH; [assumption|assumption|]. intros x Hx. apply Hin. now right.
+Qed.
+
+Lemma ask_step : forall opts univ q c,
+  same_key_same_object univ -> cache_sound opts univ c -> (forall x, In x (query_objs q) -> In x univ) ->
+  fst (ask opts c q) = answer_uncached opts q /\ cache_sound opts univ (snd (ask opts c q)).
+Proof.
+  intros opts univ q c Hk Hc Hin. destruct q as [o|o ps|o]; cbn [ask answer_uncached query_objs] in *.
+  - destruct (doc_privacy_step opts univ c o Hk Hc (Hin o (or_introl eq_refl))) as [H1 H2].
+    destruct (doc_privacyClass opts c o) as [x c']. cbn [fst snd] in *. now subst x.
+  - destruct (is_visible_step opts univ ps o c Hk Hc Hin) as [H1 H2].
+    destruct (is_visible opts c o ps) as [x c']. cbn [fst snd] in *. now subst x.
+  - unfold is_private, private_uncached.
+    destruct (doc_privacy_step opts univ c o Hk Hc (Hin o (or_introl eq_refl))) as [H1 H2].
+    destruct (doc_privacyClass opts c o) as [x c']. cbn [fst snd] in *. now subst x.
+Qed.
+
+Theorem asks_cache_transparent : forall opts univ qs c,
+  same_key_same_object univ -> cache_sound opts univ c ->
+  (forall q x, In q qs -> In x (query_objs q) -> In x univ) ->
+  run_asks opts c qs = map (answer_uncached opts) qs.
+Proof.
+  intros opts univ. induction qs as [|q r IH]; intros c Hk Hc Hin; [reflexivity|].
+  cbn [run_asks map].
+  destruct (ask_step opts univ q c Hk Hc (fun x Hx => Hin q x (or_introl eq_refl) Hx)) as [H1 H2].
+  destruct (ask opts c q) as [x c']. cbn [fst snd] in *. subst x. f_equal.
+  apply IH; [assumption|assumption|]. intros q' x Hq Hx. apply (Hin q' x); [now right|assumption].
+Qed.
+
+(* visible exactly when the object and every ancestor have a level other than HIDDEN *)
+Theorem visible_true_iff : forall opts ps o,
+  visible_uncached opts o ps = Ok true <->
+  forall x, In x (o :: ps) -> exists p, uncached opts x = Ok p /\ p <> HIDDEN.
+Proof.
+  intros opts. induction ps as [|q r IH]; intros o; cbn [visible_uncached].
+  - destruct (uncached opts o) as [p|e] eqn:E.
+    + destruct (priv_eqb p HIDDEN) eqn:Eh.
+      * split; [discriminate|]. intros H. destruct (H o (or_introl eq_refl)) as (p' & Hp & Hn).
+        apply priv_eqb_eq in Eh. congruence.
+      * split; [|reflexivity]. intros _ x [<-|[]]. exists p. split; [assumption|].
+        intros ->. cbn in Eh. discriminate.
+    + split; [discriminate|]. intros H. destruct (H o (or_introl eq_refl)) as (p' & Hp & _). congruence.
+  - destruct (uncached opts o) as [p|e] eqn:E.
+    + destruct (priv_eqb p HIDDEN) eqn:Eh.
+      * split; [discriminate|]. intros H. destruct (H o (or_introl eq_refl)) as (p' & Hp & Hn).
+        apply priv_eqb_eq in Eh. congruence.
+      * rewrite IH. split.
+        -- intros H x [<-|Hx]; [|now apply H]. exists p. split; [assumption|]. intros ->. cbn in Eh. discriminate.
+        -- intros H x Hx. apply H. now right.
+    + split; [discriminate|]. intros H. destruct (H o (or_introl eq_refl)) as (p' & Hp & _). congruence.
+Qed.
+
+(* "If a module/package/class is hidden, then all its members are hidden as well": when no privacyClass raises,
+   not visible exactly when the object or some ancestor is HIDDEN *)
+Theorem hidden_ancestor_hides : forall opts ps o,
+  (forall x, In x (o :: ps) -> exists p, uncached opts x = Ok p) ->
+  (visible_uncached opts o ps = Ok false <-> exists x, In x (o :: ps) /\ uncached opts x = Ok HIDDEN).
+Proof.
+  intros opts. induction ps as [|q r IH]; intros o Hall; cbn [visible_uncached];
+    destruct (Hall o (or_introl eq_refl)) as (p & Hp); rewrite Hp.
+  - destruct (priv_eqb p HIDDEN) eqn:Eh.
+    + apply priv_eqb_eq in Eh. subst p. split; [|reflexivity]. intros _. exists o. split; [now left|assumption].
+    + split; [discriminate|]. intros (x & [<-|[]] & Hx). rewrite Hp in Hx. injection Hx as ->. discriminate.
+  - destruct (priv_eqb p HIDDEN) eqn:Eh.
+    + apply priv_eqb_eq in Eh. subst p. split; [|reflexivity]. intros _. exists o. split; [now left|assumption].
+    + rewrite IH by (intros x Hx; apply Hall; now right). split.
+      * intros (x & Hx & H). exists x. split; [now right|assumption].
+      * intros (x & [<-|Hx] & H); [rewrite Hp in H; injection H as ->; discriminate|]. now exists x.
+Qed.
+
+Theorem private_iff : forall opts o p,
+  uncached opts o = Ok p -> private_uncached opts o = Ok (negb (priv_eqb p PUBLIC)) /\
+  (negb (priv_eqb p PUBLIC) = true <-> p <> PUBLIC).
+Proof.
+  intros opts o p H. unfold private_uncached. rewrite H. split; [reflexivity|].
+  destruct p; cbn; split; intros A; try discriminate; try reflexivity; try congruence.
 Qed.
